@@ -23,10 +23,14 @@ ASSUMPTIONS = ["leaf texts are canonical lexical forms (lexical variants are C11
 
 
 def run_profile(ctx, res, profile, nschemas, ndocs, pending):
+    import random
     for i in range(nschemas):
         seed = ctx.seed * 100000 + i
         try:
-            case = enginea.Case(seed, profile)
+            if profile == "multi-repeat":
+                case = enginea.Case(seed, profile, src=xsdgen.multi_repeat_schema(random.Random("MR-%s" % seed)))
+            else:
+                case = enginea.Case(seed, profile)
         except etree.XMLSchemaParseError:
             res.count("schema-rejected-by-libxml2")
             continue
@@ -98,13 +102,14 @@ def run(ctx):
     logging.getLogger("zeep").setLevel(logging.CRITICAL)
     pending = []
     run_profile(ctx, res, "core", ctx.n(300, 4000), 3, pending)
+    run_profile(ctx, res, "multi-repeat", ctx.n(60, 600), 3, pending)
     compare_model(ctx, res, pending)
     if pending:
         res.sample(dict(xsd=pending[0][3]["xsd"][:600], document=pending[0][3]["document"][:400]))
     res.rule = ("schemas from the section-5 generator (sequence / choice / all, nested complex types to depth 2, occurrence bounds incl. unbounded, "
                 "attributes required/optional, simpleContent, nillable, repeated choice and repeated sequence, qualified/unqualified forms), 3 "
                 "libxml2-valid documents each (occurrence counts min / min+1 / max, every choice branch, shuffled xsd:all, optional attribute subsets, "
-                "xsi:nil, default-namespace or prefixed root). distinct = distinct (schema, document); non-trivial = the root has children")
+                "xsi:nil, default-namespace or prefixed root); plus sequences holding two or three repeating particles. distinct = distinct (schema, document); non-trivial = the root has children")
     return res
 
 
@@ -114,7 +119,11 @@ def search(ctx):
 
 def replay(ctx, payload):
     c = payload.get("case", payload)
-    case = enginea.Case(c["seed"], c["profile"])
+    import random
+    if c["profile"] == "multi-repeat":
+        case = enginea.Case(c["seed"], c["profile"], src=xsdgen.multi_repeat_schema(random.Random("MR-%s" % c["seed"])))
+    else:
+        case = enginea.Case(c["seed"], c["profile"])
     doc = etree.fromstring(c["document"].encode())
     ty = case.model_type(xsdgen.height(doc) + 1)
     r = enginea.impl_parse(case, doc, True)
